@@ -279,8 +279,8 @@ Definition instr_returns (i : instr) : bool :=
 (** * Memory requirement and dynamic gas *)
 (** calcMemSize64: None = uint64 overflow *)
 Definition mem_need (off len : Z) : option Z :=
-  if U64 <=? len then None else if len =? 0 then Some 0
-  else if U64 <=? off then None else if U64 <=? off + len then None else Some (off + len).
+  if (len <? 0) || (U64 <=? len) then None else if len =? 0 then Some 0
+  else if (off <? 0) || (U64 <=? off) then None else if U64 <=? off + len then None else Some (off + len).
 Definition mem_need2 (o1 l1 o2 l2 : Z) : option Z :=
   match mem_need o1 l1, mem_need o2 l2 with
   | Some x, Some y => Some (Z.max x y)
